@@ -672,21 +672,27 @@ fn run_stream(cx: &mut Ctx, label: &str, msgs: &[AMsg], comp: u8, z0: &Version, 
                 let kdt = |w: &str| -> (u32, u64, u32) { let v: Vec<u64> = w.split('.').map(|x| x.parse().unwrap()).collect(); (v[0] as u32, v[1], v[2] as u32) };
                 let mut pubm: BTreeMap<u32, (u32, BTreeSet<u64>)> = BTreeMap::new();
                 for w in &pubw { let (k, d, t) = kdt(w); let e = pubm.entry(k).or_insert((t, BTreeSet::new())); e.1.insert(d); }
-                let mut work: BTreeMap<u32, BTreeSet<u64>> = pubm.iter().map(|(k, v)| (*k, v.1.clone())).collect();
-                let body: &[String] = if ops.first().map(|o| o == "BD").unwrap_or(false) { &ops[1..] } else { &ops[..] };
-                let mut good = z0_has_soa && body.last().map(|o| o.starts_with("F:")).unwrap_or(false);
-                if good {
-                    for o in &body[..body.len() - 1] {
-                        let (op, arg) = match o.split_once(':') { Some(x) => x, None => { good = false; break; } };
-                        if op == "BA" { continue; }
-                        if op != "A" && op != "D" { good = false; break; }
-                        let (k, d, t) = kdt(arg);
-                        let in_pub = pubm.get(&k).map_or(false, |p| p.1.contains(&d));
-                        let ttl_ok = pubm.get(&k).map_or(true, |p| p.0 == t);
-                        let w = work.entry(k).or_default();
-                        let ok = k != 0 && ttl_ok && if op == "A" { !in_pub && w.insert(d) } else { in_pub && w.remove(&d) };
-                        if !ok { good = false; break; }
+                let mut work = pubm.clone();
+                // several batches: BD and F commit (the working copy becomes the published one)
+                let mut good = z0_has_soa && ops.iter().any(|o| o == "BD" || o.starts_with("F:"));
+                for o in &ops {
+                    if !good { break; }
+                    if o == "BD" || o.starts_with("F:") {
+                        if let Some(arg) = o.strip_prefix("F:") { let (_, d, t) = kdt(arg); work.insert(0, (t, [d].into_iter().collect())); }
+                        work.retain(|_, v| !v.1.is_empty());
+                        pubm = work.clone();
+                        continue;
                     }
+                    let Some((op, arg)) = o.split_once(':') else { good = false; break; };
+                    let (k, d, t) = kdt(arg);
+                    if op == "BA" { work.insert(0, (t, [d].into_iter().collect())); continue; }
+                    if op != "A" && op != "D" { good = false; break; }
+                    let in_pub = pubm.get(&k).map_or(false, |p| p.1.contains(&d));
+                    let ttl_ok = pubm.get(&k).map_or(true, |p| p.0 == t);
+                    let w = work.entry(k).or_insert((t, BTreeSet::new()));
+                    let ok = k != 0 && ttl_ok && if op == "A" { !in_pub && w.1.insert(d) } else { in_pub && w.1.remove(&d) };
+                    w.0 = t;
+                    if !ok { good = false; }
                 }
                 let suffix = if good {
                     let applies = ap.diff_bad.is_empty();
@@ -1432,6 +1438,20 @@ fn main() {
         let wd = Version { soa: 70, keys: ks(&[1, 5, 9, 13]) };
         abort_case(&mut cx, &mut r, &[wa.clone(), wb.clone(), wc.clone()], Some(&wd), 1);
         abort_case(&mut cx, &mut r, &[wa.clone(), wb.clone(), wc.clone()], None, 2);
+        // an aborted batch that removed every RRset of some names (update-then-remove of the RRsets within
+        // one unpublished version), then a successful IXFR that reuses that version number and touches
+        // the same names again
+        let xa = Version { soa: 80, keys: ks(&[0, 1, 5, 6, 7, 11, 12, 13]) };
+        let xb = Version { soa: 82, keys: ks(&[0, 1, 5, 6, 7, 9, 11, 12, 13]) };
+        let xc = Version { soa: 84, keys: ks(&[0, 1, 9]) };
+        let xd = Version { soa: 90, keys: ks(&[0, 1, 5, 9, 11, 14]) };
+        for place in [0u64, 1] {
+            cx.force_place = Some(place);
+            abort_case(&mut cx, &mut r, &[xa.clone(), xb.clone(), xc.clone()], Some(&xd), 0);
+            abort_case(&mut cx, &mut r, &[xa.clone(), xb.clone(), xc.clone()], None, 2);
+            abort_case(&mut cx, &mut r, &[xa.clone(), xb.clone(), xc.clone(), xd.clone()], None, 1);
+        }
+        cx.force_place = None;
         let n_abort = (if a.thorough { 150 } else { 10 }) * a.scale;
         for _ in 0..n_abort {
             let mut fr = r.fork();
